@@ -120,6 +120,40 @@ theorem C07_full (D : Derive) (h : D.WF) : spec.range D.sem (minC D) (maxC D) = 
   simp only [Bool.and_eq_true, decide_eq_true_eq]
   exact ⟨h.minKey_le x hx, h.le_maxKey x hx⟩
 
+/-- membership: `range(a, b)` holds exactly the variants `v` of `iter()` with `a ≤ v ≤ b` -/
+theorem C07_mem (D : Derive) (a b v : Int) :
+    v ∈ spec.range D.sem a b ↔ v ∈ spec.iter D.sem ∧ a ≤ v ∧ v ≤ b := by
+  simp [spec.range, spec.iter, List.mem_filter]
+
+/-- a range is a sublist of `iter()`: ascending, no duplicates, nothing that `iter()` does not yield -/
+theorem C07_sublist_sorted (D : Derive) (h : D.WF) (a b : Int) :
+    (spec.range D.sem a b).Sublist (spec.iter D.sem) ∧ (spec.range D.sem a b).Pairwise (· < ·) := by
+  have hs : (spec.range D.sem a b).Sublist (spec.iter D.sem) := List.filter_sublist
+  refine ⟨hs, List.Pairwise.sublist hs ?_⟩
+  unfold spec.iter; rw [D.sem_discs]; exact h.sorted
+
+/-- narrowing a range: restricting `range(a, b)` to tighter bounds is the range of the tighter bounds -/
+theorem C07_nested (D : Derive) (a b a' b' : Int) (ha : a ≤ a') (hb : b' ≤ b) :
+    (spec.range D.sem a b).filter (fun v => decide (a' ≤ v) && decide (v ≤ b')) = spec.range D.sem a' b' := by
+  unfold spec.range
+  rw [List.filter_filter]
+  apply List.filter_congr
+  intro x _
+  rw [Bool.eq_iff_iff]
+  simp only [Bool.and_eq_true, decide_eq_true_eq]
+  omega
+
+/-- consecutive ranges concatenate: `range(a, b) = range(a, m) ++ range(m+1, b)` for `a - 1 ≤ m ≤ b` -/
+theorem C07_split (D : Derive) (h : D.WF) (a m b : Int) (ha : a ≤ m + 1) (hb : m ≤ b) :
+    spec.range D.sem a b = spec.range D.sem a m ++ spec.range D.sem (m + 1) b := by
+  unfold spec.range
+  apply filter_split a m b ha hb
+  rw [D.sem_discs]; exact h.sorted
+
+/-- non-vacuity of the split, across a hole -/
+example : spec.range exD1.sem (-5) 126 = spec.range exD1.sem (-5) 2 ++ spec.range exD1.sem 3 126 ∧
+    spec.range exD1.sem (-5) 2 = [-5, -4] := by decide
+
 /-- non-vacuity: with holes and a negative later run, in both modes, and `a > b` -/
 example : exD1.WF ∧ (rangeInit exD1 {} .table (-5) 126 = .ok (.cursor [-5, -4, 3, 126])) ∧
     (rangeInit exD1 {} .table 126 (-5) = .ok (.cursor [])) ∧
